@@ -188,6 +188,26 @@ func (c *child) crashStop(k int64) (string, error) {
 	}
 }
 
+// crashCreate: a write to a partition that does not exist yet, under the file size limit k: the partition's record makes
+// the tag index longer than k, the process dies inside the save of the index (the write is not acknowledged).
+// Returns "died:<signal>", or "survived" when the write was answered (the process is then killed).
+func (c *child) crashCreate(tags string, k int64) (string, error) {
+	if err := c.in.Encode(Cmd{Op: "write", Tags: tags, Ts: []int64{1}, Lim: &k}); err != nil {
+		c.kill()
+		return "", err
+	}
+	_, rerr := c.read()
+	if rerr == nil {
+		c.kill()
+		return "survived", nil
+	}
+	if rerr != io.EOF {
+		c.kill()
+		return "", fmt.Errorf("crash injection at a partition creation: %v", rerr)
+	}
+	return waitDeath(c.cmd), nil
+}
+
 // kill: SIGKILL, nothing gets a chance to run
 func (c *child) kill() {
 	c.cmd.Process.Signal(syscall.SIGKILL)
